@@ -68,6 +68,12 @@ func plans(id, tier string) (Plan, bool) {
 			{Pkg: pkgV2, Harness: "c05_match", Params: "mode=pairs", Shards: pick(8, 16)},
 		}
 		return Plan{Level: "exploration", Jobs: jobs}, true
+	case "C06":
+		return Plan{Level: "exploration", Jobs: []Job{
+			{Pkg: pkgV2, Harness: "c06_tokens", Shards: pick(4, 16)},
+			{Pkg: pkgV2, Harness: "c06_match", Params: map[bool]string{false: "docs=431;positions=1", true: "docs=431;positions=12"}[th], Shards: 16},
+			{Pkg: pkgV2, Harness: "c06_match", Params: map[bool]string{false: "docs=5;positions=0;kinds=notice,marker,split", true: "docs=60;positions=0"}[th], Shards: 16},
+		}}, true
 	case "C07":
 		return Plan{Level: "exploration", Jobs: []Job{
 			{Pkg: pkgV2, Harness: "c07_small", Shards: pick(6, 16)},
